@@ -48,7 +48,7 @@ class C07(ServerPlugin):
     ]
     assumptions = ["the make-service future is ready at once, so State::Making never survives a poll",
                    "signal and client actions happen between polls of the single-threaded runtime",
-                   "HTTP/2-only server with a client that has not completed the preface: known finding D15 (excluded from the theorem by hypothesis)"]
+                   "HTTP/2-only server with a client that has not completed the preface: known finding D18 (excluded from the theorem by hypothesis)"]
 
     def kinds_for(self, proto, rng):
         if proto == "h1":
@@ -125,10 +125,10 @@ class C07(ServerPlugin):
                         ["S", "G", "S", k, "S"], [k, "X", "S", k, "G", k, "S"], ["X", "G", "S"], ["G", "S"], ["S"],
                         [k, "S", "L", "S", "G", "S"], [k, "S", "M", k, "S", "G", "S"]):
                 cases.append({"mode": "g", "proto": proto, "tr": "duplex", "evs": evs})
-        # the known finding D15, kept small on purpose (see known_match)
+        # the known finding D18, kept small on purpose (see known_match)
         cases.append({"mode": "g", "proto": "h2", "tr": "duplex", "evs": ["C0", "S", "G", "S"]})
         cases.append({"mode": "g", "proto": "h2", "tr": "duplex", "evs": ["C2", "C3", "R0", "S", "G", "S", "T0", "T0", "T0", "S"]})
-        n = 1200 if tier == "quick" else 30000
+        n = 1200 if tier == "quick" else 40000
         for _ in range(n):
             proto = rng.choice(["h1", "h2", "auto"])
             x = rng.random()
@@ -142,7 +142,7 @@ class C07(ServerPlugin):
                        "exhaustive": False}
 
     def known_match(self, finding, case, obs):
-        if finding.get("id") != "D15" or case["proto"] != "h2":
+        if finding.get("id") != "D18" or case["proto"] != "h2":
             return False
         # clients of the HTTP/2-only server that had not completed the preface when told
         silent = []
